@@ -21,6 +21,7 @@ import Proofs.CommuteSuccessR
 import Proofs.CommuteAround
 import Proofs.CommuteAroundDocs
 import Proofs.CommuteAroundMarkup
+import Proofs.CommuteAroundSuccess
 namespace PM.C17
 open PM
 
@@ -965,5 +966,160 @@ theorem commute_around_mark_partial (S : Schema) (d da db dab dba : Node) (f t g
   subst e2
   rw [e1] at hab
   exact around_markup_docs S d da db dab dba f t gf gt ins sl st _ g f2 t2 hsp ha hb hab hba e3 hn1 hn2
+
+/-! ### both rebased orders apply — replace step vs. replace-around step
+
+General statement (false without a guard for the same reason as `commute_needs_guard`; the structure
+checks are what is missing from the proved part):
+
+    commute_succeeds_around_full : the replace step's range lies strictly before `from` or strictly
+        after `to` of the replace-around step, both apply to `d`, `commuteGuard` holds  ⟹
+        both rebased steps apply and give the same document
+
+A replace-around step applies as: (structure checks, if flagged) – cut the gap `d.slice gapFrom gapTo`
+(must be closed) – put it into the slice (`insert_at`) – plain replace of `[from, to)` by the result.
+Proved: the gap is found again in the other step's result at the mapped positions as the *same* closed
+slice (`slice_again`), so the rebased replace-around step is the same plain replace, shifted, and
+`commute_succeeds_replace` applies with the guard evaluated on `(from, to, slice.openStart)` of the
+replace-around step.  Kept as hypothesis `hst` (as in C04 `replaceAround_undo`): when the step carries
+the structure flag, its two `content_between` checks pass on the other step's result — two decidable
+evaluations; missing is the invariance of `content_between` under a separated replace step. -/
+
+/-- **the replace step lies before the replace-around step** -/
+-- FULL STATEMENT: the same without `hst`.
+theorem commute_succeeds_around_before_partial (S : Schema) (d da db : Node) (f t gf gt ins f1 t1 : Nat)
+    (sl s1 : Slice) (st b1 : Bool)
+    (hn : fnorm d.kids = true) (hsn1 : fnorm s1.content = true) (hsn : fnorm sl.content = true)
+    (hs : AroundShape f t gf gt sl ins) (hsep : t1 < f)
+    (ha : S.apply (.replace f1 t1 s1 b1) d = .ok da)
+    (hb : S.apply (.replaceAround f t gf gt sl ins st) d = .ok db)
+    (hg : commuteGuard d.kids f1 t1 s1 f t sl = true)
+    (hst : st = true →
+      contentBetween da ((f : Int) + (s1.size - ((t1 : Int) - f1))).toNat
+        ((gf : Int) + (s1.size - ((t1 : Int) - f1))).toNat = some false ∧
+      contentBetween da ((gt : Int) + (s1.size - ((t1 : Int) - f1))).toNat
+        ((t : Int) + (s1.size - ((t1 : Int) - f1))).toNat = some false) :
+    ∃ A' R' dab,
+      (Step.replaceAround f t gf gt sl ins st).map (Step.replace f1 t1 s1 b1).getMap = some A' ∧
+      (Step.replace f1 t1 s1 b1).map (Step.replaceAround f t gf gt sl ins st).getMap = some R' ∧
+      S.apply A' da = .ok dab ∧ S.apply R' db = .ok dab := by
+  obtain ⟨gap, inserted, hgap, ho1, ho2, hinst, hfr1⟩ :=
+    apply_replaceAround_parts S d db f t gf gt sl ins st hb
+  obtain ⟨_, hl, _, _⟩ := apply_around_aroundL S d db f t gf gt sl ins st hs hb
+  obtain ⟨hwf, hins, hgo⟩ := hs
+  obtain ⟨_, hio1, _⟩ := insertAt_toks S sl inserted ins gap.content hwf hins hinst
+  have hgap' : sliceKids d.kids gf gt = .ok gap := hgap
+  have hgn := sliceKids_norm d.kids gf gt gap hn hgap'
+  have hin := insertAt_norm S sl inserted ins gap.content hsn hgn.1 hinst
+  have hb2 : S.apply (.replace f t inserted false) d = .ok db := by simpa [Schema.apply] using hfr1
+  have hg' : commuteGuard d.kids f1 t1 s1 f t inserted = true := by
+    rw [commuteGuard_openStart _ _ _ _ _ s1 sl s1 inserted rfl hio1]; exact hg
+  obtain ⟨a', b', dab, hb', ha', hab, hba⟩ := commute_succeeds_replace S d da db f1 t1 f t s1 inserted
+    b1 false hn hsn1 hin hsep ha hb2 hg'
+  obtain ⟨hda, h1, hl1, hlen1⟩ := apply_replace_splice S d da f1 t1 s1 b1 ha
+  obtain ⟨r1, r2⟩ := rebase_separated_after f1 t1 f t s1 inserted b1 false h1 (by omega) hsep (by omega)
+  rw [r1] at hb'; rw [r2] at ha'
+  simp only [Option.some.injEq] at hb' ha'
+  subst hb' ha'
+  have hna : fnorm da.kids = true := by
+    obtain ⟨ty, a, m, K, Ka, rfl, rfl, hr⟩ := fromReplace_elem S d da f1 t1 s1
+      (apply_replace_fromReplace S d da f1 t1 s1 b1 ha)
+    exact replaceKids_norm S ty K f1 t1 s1 Ka hn hsn1 hr
+  have n : ∀ p : Nat, t1 < p →
+      ((p : Int) + (s1.size - ((t1 : Int) - f1))).toNat = f1 + s1.toks.length + (p - t1) := by
+    intro p hp; omega
+  have n' : ∀ p : Nat, t1 < p →
+      ((p : Int) + s1.size - ((t1 : Int) - f1)).toNat = f1 + s1.toks.length + (p - t1) := by
+    intro p hp; omega
+  refine ⟨_, _, dab, around_map_replace_before f t gf gt ins f1 t1 sl s1 st b1 hgo h1 hsep,
+    replace_map_around_after f t gf gt ins f1 t1 sl s1 st b1 h1 hsep, ?_, hba⟩
+  have hfr : S.fromReplace da ((f : Int) + (s1.size - ((t1 : Int) - f1))).toNat
+      ((t : Int) + (s1.size - ((t1 : Int) - f1))).toNat inserted = .ok dab := by
+    have := apply_replace_fromReplace S da dab _ _ inserted false hab
+    rwa [n' f (by omega), n' t (by omega), ← n f (by omega), ← n t (by omega)] at this
+  refine around_applies_of_parts S da dab _ _ _ _ sl ins st gap inserted ?_ ho1 ho2 hinst hfr hst
+  show sliceKids da.kids _ _ = .ok gap
+  rw [n gf (by omega), n gt (by omega)]
+  have hlenda : (ftoks da.kids).length = f1 + s1.toks.length + ((ftoks d.kids).length - t1) := by
+    rw [hda]; exact splice_length _ _ _ _ h1 hl1
+  have := slice_again d.kids da.kids gf gt (f1 + s1.toks.length + (gf - t1)) gap hn hna hgo.2.1
+    (by rw [← ftoks_length]; omega) (by rw [← ftoks_length, hlenda]; omega) hgap' ho1 ho2
+    (by rw [hda]; exact splice_window_after _ _ f1 t1 gf _ h1 (by omega) hl1)
+    (fun hlt => by
+      obtain ⟨al1, al2⟩ := sliceKids_aligned d.kids gf gt gap hlt hgap'
+      refine ⟨aligned_after_splice d.kids da.kids _ f1 t1 gf hn hna hda h1 hl1 (by omega) al1, ?_⟩
+      have := aligned_after_splice d.kids da.kids _ f1 t1 gt hn hna hda h1 hl1 (by omega) al2
+      rwa [show f1 + s1.toks.length + (gt - t1) = f1 + s1.toks.length + (gf - t1) + (gt - gf) by omega]
+        at this)
+  rwa [show f1 + s1.toks.length + (gf - t1) + (gt - gf) = f1 + s1.toks.length + (gt - t1) by omega] at this
+
+/-- **the replace step lies after the replace-around step** -/
+-- FULL STATEMENT: the same without `hst`.
+theorem commute_succeeds_around_after_partial (S : Schema) (d da db : Node) (f t gf gt ins f1 t1 : Nat)
+    (sl s1 : Slice) (st b1 : Bool)
+    (hn : fnorm d.kids = true) (hsn1 : fnorm s1.content = true) (hsn : fnorm sl.content = true)
+    (hs : AroundShape f t gf gt sl ins) (hsep : t < f1)
+    (ha : S.apply (.replace f1 t1 s1 b1) d = .ok da)
+    (hb : S.apply (.replaceAround f t gf gt sl ins st) d = .ok db)
+    (hg : commuteGuard d.kids f t sl f1 t1 s1 = true)
+    (hst : st = true → contentBetween da f gf = some false ∧ contentBetween da gt t = some false) :
+    ∃ A' R' dab,
+      (Step.replaceAround f t gf gt sl ins st).map (Step.replace f1 t1 s1 b1).getMap = some A' ∧
+      (Step.replace f1 t1 s1 b1).map (Step.replaceAround f t gf gt sl ins st).getMap = some R' ∧
+      S.apply A' da = .ok dab ∧ S.apply R' db = .ok dab := by
+  obtain ⟨gap, inserted, hgap, ho1, ho2, hinst, hfr1⟩ :=
+    apply_replaceAround_parts S d db f t gf gt sl ins st hb
+  obtain ⟨_, hl, hX, hY⟩ := apply_around_aroundL S d db f t gf gt sl ins st hs hb
+  obtain ⟨hwf, hins, hgo⟩ := hs
+  obtain ⟨hitk, hio1, _⟩ := insertAt_toks S sl inserted ins gap.content hwf hins hinst
+  have hgap' : sliceKids d.kids gf gt = .ok gap := hgap
+  have hgn := sliceKids_norm d.kids gf gt gap hn hgap'
+  have hin := insertAt_norm S sl inserted ins gap.content hsn hgn.1 hinst
+  have hb2 : S.apply (.replace f t inserted false) d = .ok db := by simpa [Schema.apply] using hfr1
+  have hg' : commuteGuard d.kids f t inserted f1 t1 s1 = true := by
+    rw [commuteGuard_openStart _ _ _ _ _ sl s1 inserted s1 hio1 rfl]; exact hg
+  obtain ⟨a', b', dab, hb', ha', hab, hba⟩ := commute_succeeds_replace S d db da f t f1 t1 inserted s1
+    false b1 hn hin hsn1 hsep hb2 ha hg'
+  obtain ⟨hda, h1, hl1, hlen1⟩ := apply_replace_splice S d da f1 t1 s1 b1 ha
+  obtain ⟨_, _, _, hleni⟩ := apply_replace_splice S d db f t inserted false hb2
+  have hgaplen : (ftoks gap.content).length = gt - gf := by
+    have : gap = ⟨gap.content, 0, 0⟩ := by cases gap; simp at ho1 ho2; simp [ho1, ho2]
+    rw [← Slice.toks_closed, ← this, sliceKids_toks d.kids gf gt gap hgo.2.1
+      (by rw [← ftoks_length]; omega) hgap', List.length_take, List.length_drop]
+    omega
+  have hisz : inserted.size = sl.size + ((gt : Int) - gf) := by
+    have h1 := congrArg List.length hitk
+    obtain ⟨hl2, _⟩ := Slice.toks_length_of_wf_ex sl hwf
+    simp only [List.length_append, List.length_take, List.length_drop, hgaplen] at h1
+    omega
+  obtain ⟨r1, r2⟩ := rebase_separated_after f t f1 t1 inserted s1 false b1 (by omega) h1 hsep (by omega)
+  rw [r1] at hb'; rw [r2] at ha'
+  simp only [Option.some.injEq] at hb' ha'
+  subst hb' ha'
+  have hna : fnorm da.kids = true := by
+    obtain ⟨ty, a, m, K, Ka, rfl, rfl, hr⟩ := fromReplace_elem S d da f1 t1 s1
+      (apply_replace_fromReplace S d da f1 t1 s1 b1 ha)
+    exact replaceKids_norm S ty K f1 t1 s1 Ka hn hsn1 hr
+  refine ⟨_, _, dab, around_map_replace_after f t gf gt ins f1 t1 sl s1 st b1 hgo hsep,
+    replace_map_around_before f t gf gt ins f1 t1 sl s1 st b1 hgo h1 hsep, ?_, ?_⟩
+  · have hfr := apply_replace_fromReplace S da dab _ _ inserted false hba
+    refine around_applies_of_parts S da dab _ _ _ _ sl ins st gap inserted ?_ ho1 ho2 hinst hfr hst
+    show sliceKids da.kids _ _ = .ok gap
+    have hlenda : (ftoks da.kids).length = f1 + s1.toks.length + ((ftoks d.kids).length - t1) := by
+      rw [hda]; exact splice_length _ _ _ _ h1 hl1
+    have := slice_again d.kids da.kids gf gt gf gap hn hna hgo.2.1
+      (by rw [← ftoks_length]; omega) (by rw [← ftoks_length, hlenda]; omega) hgap' ho1 ho2
+      (by rw [hda]; exact splice_window_before _ _ f1 t1 gf _ (by omega) (by omega))
+      (fun hlt => by
+        obtain ⟨al1, al2⟩ := sliceKids_aligned d.kids gf gt gap hlt hgap'
+        refine ⟨aligned_before_splice d.kids da.kids _ f1 t1 gf hn hna hda (by omega) (by omega) al1, ?_⟩
+        have := aligned_before_splice d.kids da.kids _ f1 t1 gt hn hna hda (by omega) (by omega) al2
+        rwa [show gt = gf + (gt - gf) by omega] at this)
+    rwa [show gf + (gt - gf) = gt by omega] at this
+  · have e : ∀ p : Nat, ((p : Int) + inserted.size - ((t : Int) - f)).toNat =
+        ((p : Int) + ((ins : Int) - ((gf : Int) - f)) + (sl.size - ins - ((t : Int) - gt))).toNat := by
+      intro p; congr 1; omega
+    rw [← e f1, ← e t1]
+    exact hab
 
 end PM.C17
